@@ -65,10 +65,35 @@ func c08Parse(c M) M {
 	}
 	if err != nil {
 		o["err"] = errStr(err)
+		c08Again(o, text)
 		return o
 	}
 	o["val"] = strconv.FormatInt(int64(d), 10)
+	c08Again(o, text)
 	return o
+}
+
+// c08Again: a history in one process - the same magnitude with the other sign is parsed, then the text once more.
+// What ParseDuration answers for a text is recorded a second time ("again"); the judge requires the two answers to agree.
+func c08Again(o M, text string) {
+	flipped := "-" + text
+	if strings.HasPrefix(text, "-") {
+		flipped = text[1:]
+	}
+	var d2 time.Duration
+	var err2 error
+	if p := guard(func() {
+		influxql.ParseDuration(flipped)
+		d2, err2 = influxql.ParseDuration(text)
+	}); p != "" {
+		o["again"] = M{"panic": p}
+		return
+	}
+	if err2 != nil {
+		o["again"] = M{"err": errStr(err2)}
+		return
+	}
+	o["again"] = M{"val": strconv.FormatInt(int64(d2), 10)}
 }
 
 func c08Format(c M) M {
